@@ -34,7 +34,7 @@ func truncate(s string, n int) string {
 	return s
 }
 
-var c17Families = []string{"lr", "lr2", "expr", "expr4", "mutual", "mutual3", "hidden", "brackets", "seplist", "rightrec", "exprparen", "tower4", "tower5", "tower6"}
+var c17Families = []string{"lr", "lr2", "expr", "expr4", "mutual", "mutual3", "hidden", "brackets", "seplist", "rightrec", "exprparen", "tower4", "tower5", "tower6", "hiddenmany", "hiddensepby", "hiddenopts"}
 
 var towerOps = "%^&|+*"
 
@@ -57,7 +57,6 @@ func genC17(t *rapid.T) interface{} {
 	}
 	return c
 }
-
 
 func c17Parser(family string, variant int, limit *int) parsley.Parser {
 	perm := variant&1 != 0
@@ -150,6 +149,19 @@ func c17Parser(family string, variant int, limit *int) parsley.Parser {
 	case "hidden": // H -> x? H b | a   (unambiguous: x only directly before a)
 		var h parser.Func
 		h = memo(alt(combinator.SeqOf(combinator.Optional(r('x')), &h, r('b')), r('a')))
+		return &h
+	case "hiddenmany", "hiddensepby", "hiddenopts": // H -> prefix H b | a with a composite nullable prefix
+		var h parser.Func
+		var prefix parsley.Parser
+		switch family {
+		case "hiddenmany":
+			prefix = combinator.Many(r('x'))
+		case "hiddensepby":
+			prefix = combinator.SepBy(r('x'), r(','))
+		default:
+			prefix = combinator.SeqOf(combinator.Optional(r('x')), combinator.Optional(r('y')))
+		}
+		h = memo(alt(combinator.SeqOf(prefix, &h, r('b')), r('a')))
 		return &h
 	case "brackets": // N -> ( N ) | [ N ] | a
 		var n parser.Func
@@ -260,6 +272,8 @@ func c17ValidInput(family string, n int, shape int) string {
 			return "a" + strings.Repeat("b", n-1)
 		}
 		return "xa" + strings.Repeat("b", n-2)
+	case "hiddenmany", "hiddensepby", "hiddenopts":
+		return "a" + strings.Repeat("b", n-1) // the prefix matches nothing
 	case "brackets":
 		k := n / 2
 		o, c := "(", ")"
